@@ -1217,8 +1217,18 @@ fn run_c16(args: &Args) -> Report {
             continue;
         }
         let ndocs = cr.range(1, 2);
+        // One two-document race in three opens the second document LATE: as the very last message, behind the
+        // last edit of the first and the requests that follow it, in the same stream. Opening a document changes the
+        // workspace too - it cancels whatever is still being computed for the first document - and the
+        // first document's last diagnostics must all the same be those of its final text. Its text ends
+        // in a line that is a syntax error, so that "no diagnostics" is not the right answer.
+        let open_late = ndocs == 2 && cr.chance(1, 3);
+        if open_late {
+            rep.count("races_with_a_document_opened_late", 1);
+        }
         // versions[d][v] = text of doc d at global step v
-        let mut cur: Vec<Doc> = (0..ndocs).map(|_| Doc::new(big_module(&mut cr))).collect();
+        let mut cur: Vec<Doc> = (0..ndocs).map(|d| Doc::new(if open_late && d == 0 { format!("{}\nbla = bla\n", big_module(&mut cr)) } else { big_module(&mut cr) })).collect();
+        let edited_docs = if open_late { 1 } else { ndocs };
         let k = cr.range(2, 7);
         let mut steps: Vec<(usize, Value)> = Vec::new(); // (doc, change)
         let mut texts: Vec<Vec<Doc>> = vec![cur.clone()];
@@ -1227,13 +1237,13 @@ fn run_c16(args: &Args) -> Report {
         {
             let mut v0 = Vec::new();
             for _ in 0..cr.range(1, 6) {
-                let di = cr.below(ndocs);
+                let di = cr.below(edited_docs);
                 v0.push(gen_race_request(&mut cr, &uris[di], &cur[di], di));
             }
             reqs.push(v0);
         }
         for _ in 0..k {
-            let di = cr.below(ndocs);
+            let di = cr.below(edited_docs);
             // one notification carries 1-3 content changes, each relative to the document as
             // the previous one left it
             let nch = if cr.chance(1, 3) { cr.range(2, 3) } else { 1 };
@@ -1250,12 +1260,12 @@ fn run_c16(args: &Args) -> Report {
             texts.push(cur.clone());
             let mut rv = Vec::new();
             for _ in 0..cr.range(1, 16) {
-                let dj = cr.below(ndocs);
+                let dj = cr.below(edited_docs);
                 rv.push(gen_race_request(&mut cr, &uris[dj], &cur[dj], dj));
             }
             reqs.push(rv);
         }
-        let replay = json!({"kind":"race","case_seed":case_seed.to_string(),"docs":texts[0].iter().map(|d| d.text.clone()).collect::<Vec<_>>(),"steps":steps.iter().map(|(d,c)| json!([d,c])).collect::<Vec<_>>(),
+        let replay = json!({"kind":"race","case_seed":case_seed.to_string(),"second_document_opened_last":open_late,"docs":texts[0].iter().map(|d| d.text.clone()).collect::<Vec<_>>(),"steps":steps.iter().map(|(d,c)| json!([d,c])).collect::<Vec<_>>(),
             "requests":reqs.iter().map(|v| v.iter().map(|q| json!([q.method,q.params])).collect::<Vec<_>>()).collect::<Vec<_>>()});
         rep.evaluations += 1;
 
@@ -1266,7 +1276,7 @@ fn run_c16(args: &Args) -> Report {
         };
         if refsrv.initialize(Some(&root_uri), Duration::from_secs(20)).is_none() { rep.inconclusive += 1; continue; }
         let mut version = 0i64;
-        for d in 0..ndocs {
+        for d in 0..edited_docs {
             version += 1;
             refsrv.notify("textDocument/didOpen", json!({"textDocument":{"uri":uris[d],"languageId":"gleam","version":version,"text":texts[0][d].text}}));
         }
@@ -1311,7 +1321,7 @@ fn run_c16(args: &Args) -> Report {
         if s.initialize(Some(&root_uri), Duration::from_secs(20)).is_none() { rep.inconclusive += 1; continue; }
         let mut bytes: Vec<u8> = Vec::new();
         let mut version = 0i64;
-        for d in 0..ndocs {
+        for d in 0..edited_docs {
             version += 1;
             bytes.extend(vh::lspclient::frame(&json!({"jsonrpc":"2.0","method":"textDocument/didOpen","params":{"textDocument":{"uri":uris[d],"languageId":"gleam","version":version,"text":texts[0][d].text}}})));
         }
@@ -1330,6 +1340,10 @@ fn run_c16(args: &Args) -> Report {
                 issued.push((id, ti, v));
                 ti += 1;
             }
+        }
+        if open_late {
+            version += 1;
+            bytes.extend(vh::lspclient::frame(&json!({"jsonrpc":"2.0","method":"textDocument/didOpen","params":{"textDocument":{"uri":uris[1],"languageId":"gleam","version":version,"text":texts[0][1].text}}})));
         }
         // seeded batching: split the byte stream at random points, tiny pauses now and then
         let mut off = 0;
@@ -1434,7 +1448,7 @@ fn run_c16(args: &Args) -> Report {
                         // which version's diagnostics are they?
                         let older = (0..k).rev().find(|v| expected_diagnostics(&texts[*v][d].server_view()) == got);
                         rep.violate(
-                            format!("race:last-diagnostics-not-of-final-text:{}", if older.is_some() { "of-an-older-version" } else if got.is_empty() { "empty" } else { "other" }),
+                            format!("race:last-diagnostics-not-of-final-text:{}{}", if older.is_some() { "of-an-older-version" } else if got.is_empty() { "empty" } else { "other" }, if open_late { ":another-document-opened-last" } else { "" }),
                             format!("doc {d}: last published {:?} expected {:?}; all publications for this document in order (matching version or ?): {:?}", got.iter().take(4).collect::<Vec<_>>(), want.iter().take(4).collect::<Vec<_>>(),
                                 s.notifications.iter().filter(|(m, p)| m == "textDocument/publishDiagnostics" && p["uri"].as_str() == Some(uris[d].as_str())).map(|(_, p)| { let g = diag_nf(p); (0..=k).filter(|v| expected_diagnostics(&texts[*v][d].server_view()) == g).map(|v| v.to_string()).collect::<Vec<_>>().join("|") }).collect::<Vec<_>>()),
                             replay.clone(),
